@@ -26,7 +26,7 @@ func init() {
 			"through NewCalculator.For and through CalculateGaussianRate.Rate; a set is non-trivial when its per-tick real rate is fractional somewhere (so the remainder carry matters) and the window sum is > 0; " +
 			"distinct = distinct (api, #weights, tick, log10 volume, log2 ticks, peak position class, sigma class) classes observed",
 		Assumptions: []string{
-			"tick frequency divides the window, peak inside the window, sigma in [tick, window], weights > 0 (the property's domain)",
+			"tick frequency divides the window, peak inside the window, sigma in [tick, window], weights >= 0 with a positive first weight (the property's domain)",
 			"'discretisation error' is the Riemann-sum bound V*(w/avg)*f*(TV(g)+g(R-f)+g(R))/covered plus one unit of carried remainder",
 			"weights are matched in cyclic order from some offset; absolute alignment is not assumed",
 		},
@@ -103,6 +103,9 @@ func c11Run(c *core.Case, o *core.Outcome) {
 			weights[i] = float64(1+r.IntN(40)) / 4
 			if r.IntN(6) == 0 {
 				weights[i] = 0.01 + r.Float64()*5
+			}
+			if nw >= 2 && i > 0 && r.IntN(5) == 0 {
+				weights[i] = 0 // e.g. a weekend without load; the first weight stays positive
 			}
 			ws[i] = strconv.FormatFloat(weights[i], 'g', -1, 64)
 			weights[i], _ = strconv.ParseFloat(ws[i], 64)
